@@ -7,7 +7,7 @@ Definition bell : list Spec.sinstr :=
   [Spec.SU1 (Act.e_id (Act.gate_named "H"%string)) 0; Spec.SU2 (Act.e_id (Act.gate_named "CX"%string)) 0 1;
    Spec.SMeas [(0, (false, true))] false; Spec.SMeas [(1, (false, true))] false].
 Example bell_forms : Spec.recs (Spec.srun 2 0 bell) = [(false, 1%N); (false, 1%N)] /\
-  exists ops v', SpecLink.compile 2 [] bell = Some (ops, v') /\ v' = [Some false; Some false] /\ List.length ops = 4.
+  exists ops v', SpecLink.compile 2 [] bell = Some (ops, v') /\ v' = [Some (false, []); Some (false, [])] /\ List.length ops = 4.
 Proof. split; [vm_compute; reflexivity|]. vm_compute. eexists; eexists. repeat split. Qed.
 Lemma gate_id_in i e : find (fun e => Z.eqb (Act.e_id e) i) Gen_GateTable.gate_table = Some e -> In (Act.gate_id i) Gen_GateTable.gate_table.
 Proof. intros H. unfold Act.gate_id. rewrite H. apply (find_some _ _ H). Qed.
@@ -27,11 +27,12 @@ Require Import Pauli Collapse Sem Run FrameProg SpecProofs SpecComplete GF2.
 (* the legal records of the Bell-pair circuit are exactly 00 and 11 *)
 Theorem bell_legal_records ops v' : SpecLink.compile 2 [] bell = Some (ops, v') ->
   (forall la S', FrameProg.realize (fun _ => false) [] (map SpecSem.tr ops) la -> Run.sem_run (fun P => Zplus P) la S' ->
-     exists b : bool, rev (SpecLink.projb v' (fold_left SpecSem.push la [])) = [b; b]) /\
+     exists b : bool, rev (SpecLink.projb (fun _ => false) v' (fold_left SpecSem.push la [])) = [b; b]) /\
   (forall b : bool, exists ext l S', FrameProg.realize ext [] (map SpecSem.tr ops) l /\ Run.sem_run (fun P => Zplus P) l S' /\
-     rev (SpecLink.projb v' (fold_left SpecSem.push l [])) = [b; b]).
+     rev (SpecLink.projb (fun _ => false) v' (fold_left SpecSem.push l [])) = [b; b]).
 Proof.
-  intros Hc. pose proof (bell_ops_ok ops v' Hc) as Hok. destruct bell_forms as [Ef _]. split.
+  intros Hc. pose proof (bell_ops_ok ops v' Hc) as Hok. destruct bell_forms as [Ef (ops0 & v0 & Hc0 & Ev & _)].
+  assert (Hnv : SpecLink.novars v') by (rewrite Hc0 in Hc; injection Hc as _ <-; rewrite Ev; cbn; tauto). split.
   - intros la S' Hre Hrun.
     assert (Hv : SpecComplete.vars_below 0 ops).
     { revert Hc. cbn [SpecLink.compile SpecLink.compile1 bell].
@@ -39,8 +40,8 @@ Proof.
       assert (E2 : Stab.is_identity (snd (Spec.herm_of 2 [(1, (false, true))])) = false) by (vm_compute; reflexivity).
       rewrite E1, E2. cbn [app]. intros H. injection H as <- _. cbn. exact Logic.I. }
     destruct (SpecLink.srun_complete 2 0 (fun _ => false) bell ops v' la S' Hc Hok Hv Hre Hrun) as (m & k & _ & _ & E).
-    rewrite Ef in E. exists (SpecProofs.eval_form m k (false, 1%N)). exact E.
+    rewrite Ef in E. exists (SpecProofs.eval_form m k (false, 1%N)). rewrite (SpecLink.projb_novars _ (fun x => SpecProofs.eval_form m k (SpecSem.varf x)) v' Hnv). exact E.
   - intros b. destruct (SpecLink.srun_sound 2 0 bell ops v' 1 [b] Hc Hok) as (l & S' & Hre & Hrun & E).
-    eexists; exists l, S'. split; [exact Hre|]. split; [exact Hrun|]. rewrite E, Ef. destruct b; vm_compute; reflexivity.
+    eexists; exists l, S'. split; [exact Hre|]. split; [exact Hrun|]. rewrite (SpecLink.projb_novars _ (fun x => SpecProofs.eval_form 1 [b] (SpecSem.varf x)) v' Hnv), E, Ef. destruct b; vm_compute; reflexivity.
 Qed.
 Print Assumptions bell_legal_records.
